@@ -1,13 +1,18 @@
 #!/bin/sh
 # Regenerate coq/_CoqProject and coq/Makefile from the .v files present.
+# Concurrent callers are serialised (its own lock, not the build lock: callers may hold that one).
 set -e
 cd "$(dirname "$0")/../coq"
+mkdir -p ../.work
+exec 9>../.work/coqproject.lock
+flock 9
+tmp="_CoqProject.new.$$"
 {
   echo "-R . Verif"
   echo "-arg -w -arg -notation-overridden,-deprecated-hint-without-locality,-deprecated-instance-without-locality"
   ls lib/*.v gen/*.v c[0-9][0-9]/*.v 2>/dev/null | grep -v '/cases\|/zz_' | sort
-} > _CoqProject.new
-if ! cmp -s _CoqProject.new _CoqProject 2>/dev/null; then mv _CoqProject.new _CoqProject; else rm _CoqProject.new; fi
+} > "$tmp"
+if ! cmp -s "$tmp" _CoqProject 2>/dev/null; then mv "$tmp" _CoqProject; else rm -f "$tmp"; fi
 if [ ! -f Makefile ] || [ _CoqProject -nt Makefile ]; then
   coq_makefile -f _CoqProject -o Makefile >/dev/null
 fi
